@@ -423,3 +423,102 @@ def _real_grids(rng, n):
 
 Unit("C06", "Grid.get_K_list + refinement [real point groups]", concrete=_real_grids,
      bounded_desc="6 (magnetic) point groups on cubic / hexagonal lattices, grids 2x2x2, 4x4x1, 3x3x2, 6x6x1 where compatible; one random refinement step with merging")
+
+
+# ------------------------------------------------------------------ Grid.get_K_list : symmetry reduction of the initial grid
+def _closure(gens):
+    ops = [rnp.eye(3, dtype=int)]
+    changed = True
+    while changed:
+        changed = False
+        for a in list(ops):
+            for g in gens:
+                c = a @ g
+                if not any((c == o).all() for o in ops):
+                    ops.append(c)
+                    changed = True
+    return ops
+
+
+GROUPS = {
+    "identity": [],
+    "C2y": [rnp.diag([-1, 1, -1])],
+    "Mx,Mz": [rnp.diag([-1, 1, 1]), rnp.diag([1, 1, -1])],
+    "inversion": [rnp.diag([-1, -1, -1])],
+    "C2x,C2y": [rnp.diag([1, -1, -1]), rnp.diag([-1, 1, -1])],
+    "C4z": [rnp.array([[0, -1, 0], [1, 0, 0], [0, 0, 1]])],
+    "C3(111)": [rnp.array([[0, 0, 1], [1, 0, 0], [0, 1, 0]])],
+}
+
+
+def _klist_unit(gname, tiers=("quick", "thorough")):
+    @unit("C06", "Grid.get_K_list[%s]" % gname, scope="shape:every grid with 1..4 (quick) / 1..5 (thorough) points per direction compatible with the group",
+          expect_min=3, tiers=tiers)
+    def _k(U):
+        ops = _closure(GROUPS[gname])
+
+        class PG:
+            def star(self, K):
+                imgs = []
+                for o in ops:
+                    k = o @ K
+                    if not any(rnp.allclose((k - q) - rnp.round(k - q), 0, atol=1e-9) for q in imgs):
+                        imgs.append(k)
+                return rnp.array(imgs)
+
+        class KP:
+            def __init__(self, K, dK, NKFFT, factor, pointgroup, refinement_level):
+                self.K, self.dK, self.factor, self.pointgroup = K, dK, factor, pointgroup
+                self.absorbed = 0
+
+            @property
+            def star(self):
+                return self.pointgroup.star(self.K)
+
+            def absorb(self, other):
+                if other is None:
+                    return
+                self.factor += other.factor
+                self.absorbed += 1
+        f = U.fn("wannierberri/grid/grid.py", "Grid.get_K_list", globs=dict(np=rnp, time=lambda: 0.0, print=lambda *a, **k: None, KpointBZparallel=KP), model=False)
+
+        def body():
+            import os
+            top = 4 if os.environ.get("VERIF_TIER", "quick") != "thorough" else 5
+            bad_sum, bad_w, bad_part, ngrids = [], [], [], 0
+            for div in itertools.product(range(1, top + 1), repeat=3):
+                d = rnp.array(div)
+                # the grid must be mapped onto itself by the group
+                if not all(rnp.allclose(((o @ (rnp.array(p) / d)) * d) - rnp.round((o @ (rnp.array(p) / d)) * d), 0, atol=1e-9)
+                           for o in ops for p in ((1, 0, 0), (0, 1, 0), (0, 0, 1))):
+                    continue
+                ngrids += 1
+                me = _Obj()
+                me.div, me.FFT, me.pointgroup = d, rnp.array([1, 1, 1]), PG()
+                Ks = f(me, use_symmetry=True)
+                N = int(d.prod())
+                if abs(sum(K.factor for K in Ks) - 1) > 1e-12 or any(K.factor <= 0 for K in Ks):
+                    bad_sum.append(div)
+                seen = {}
+                for K in Ks:
+                    orb = {tuple(int(v) for v in rnp.round(k * d).astype(int) % d) for k in K.star}
+                    if abs(K.factor - len(orb) / N) > 1e-12:
+                        bad_w.append(div)
+                    for s_ in orb:
+                        seen[s_] = seen.get(s_, 0) + 1
+                if len(seen) != N or any(v != 1 for v in seen.values()):
+                    bad_part.append(div)
+                Ku = f(me, use_symmetry=False)
+                if len(Ku) != N or any(abs(K.factor - 1 / N) > 1e-15 for K in Ku):
+                    bad_sum.append(("no symmetry",) + div)
+            U.ensure("at least one compatible grid explored", ngrids > 0)
+            U.ensure("weights are positive and sum to one (with and without symmetry reduction)", not bad_sum)
+            U.ensure("every retained point carries the weight of its orbit: |orbit| / N", not bad_w)
+            U.ensure("the orbits of the retained points cover each grid point exactly once", not bad_part)
+            ctx().ghost["grids"] = ngrids
+        U.run(body, check_feasible=False)
+        U.assumption("PointGroup.star(k) lists the distinct images of k (contract of star, see C09); absorb() adds the weight (proved above)")
+
+
+for _g in GROUPS:
+    _klist_unit(_g)
